@@ -12,6 +12,12 @@ open Cascette.Props.C09
 #print axioms arc4_key_len_guard
 #print axioms arc4_decrypt_encrypt
 #print axioms arc4_piecewise
+#print axioms arc4_model_eq_spec
+#print axioms arc4_stream_eq_spec
+#print axioms arc4_index_in_bounds
+#print axioms arc4_sbox_permutation
+#print axioms rc4_spec_permutation
+#print axioms rc4_spec_known_answers
 #print axioms simd_memcmp_eq_scalar
 #print axioms simd_mem_equal_eq_scalar
 #print axioms simd_memmem_eq_scalar
@@ -32,3 +38,16 @@ open Cascette.Props.C09
 #print axioms Cascette.Proofs.CryptoTie.hashlittle2_tail_tie
 #print axioms Cascette.Proofs.CryptoTie.hashlittle_init_tie
 #print axioms Cascette.Proofs.CryptoTie.hashlittle2_init_tie
+-- translator tie, extension: ARC4 KSA/PRGA/apply_keystream, Salsa20 apply_keystream loop, hashlittle control flow
+#print axioms Cascette.Proofs.CryptoTie.slice_swap_tie
+#print axioms Cascette.Proofs.CryptoTie.arc4_next_tie
+#print axioms Cascette.Proofs.CryptoTie.arc4_init_tie
+#print axioms Cascette.Proofs.CryptoTie.arc4_ksa_tie
+#print axioms Cascette.Proofs.CryptoTie.arc4_new_tie
+#print axioms Cascette.Proofs.CryptoTie.arc4_apply_tie
+#print axioms Cascette.Proofs.CryptoTie.arc4_idioms_tie
+#print axioms Cascette.Proofs.CryptoTie.salsa_apply_body_tie
+#print axioms Cascette.Proofs.CryptoTie.salsa_apply_tie
+#print axioms Cascette.Proofs.CryptoTie.hashlittle_len_tie
+#print axioms Cascette.Proofs.CryptoTie.hashlittle_assembly_tie
+#print axioms Cascette.Proofs.CryptoTie.hashlittle2_assembly_tie
